@@ -164,6 +164,14 @@ void RSModel::ResetDependants(const EntityUID target) {
 void RSModel::AfterInsert(const EntityUID target) {
   dataFacet->ResetFor(target);
   calulatorFacet->ResetFor(target);
+  // Note: the insertion can complete the typification of structures that were declared over the new constituent
+  for (const auto uid : core.RSLang().Graph().ExpandOutputs({ target })) {
+    if (uid != target &&
+        core.GetRS(uid).type == CstType::structured &&
+        !dataFacet->SDataFor(uid).has_value()) {
+      dataFacet->ResetFor(uid);
+    }
+  }
 }
 
 EntityUID RSModel::Load(ConceptRecord&& cst) {
